@@ -678,7 +678,11 @@ func vHistLine(ops []vOp) string {
 	for i, o := range ops {
 		parts[i] = o.String()
 	}
-	return fmt.Sprintf("hist 0 %d %s", len(ops), strings.Join(parts, " "))
+	variant := 0 // which Link the model runs: 0 = pinned code, 1 = proposed_fixes/C08-F8.patch (detected by the check)
+	if os.Getenv("VERIF_C08_FIXED") == "1" {
+		variant = 1
+	}
+	return fmt.Sprintf("hist %d %d %s", variant, len(ops), strings.Join(parts, " "))
 }
 
 // ---------------------------------------------------------------- crash points (strace kill injection)
